@@ -3,7 +3,7 @@
    The float parser [pf] is a Section variable. *)
 From Coq Require Import Setoid List NArith ZArith Bool Lia.
 From Coq Require Import ZifyBool ZifyNat ZifyN.
-From SF Require Import Base.Prelude Base.Utf8 Core.Events Json.Parse Json.ParseSafety.
+From SF Require Import Base.Prelude Base.Utf8 Core.Events Json.Parse Json.ParseSafety Json.ChunkProofs.
 Import ListNotations.
 Open Scope Z_scope.
 Ltac Zify.zify_post_hook ::= Z.div_mod_to_equations.
@@ -555,6 +555,580 @@ Proof.
   exists evs0, e0, p0, p. auto.
 Qed.
 
+
+(* ====================================================================== *)
+(* Part 2: C17 - the state after an accepted input.  The state stack is   *)
+(* well formed: jStart at the bottom and nowhere else; the literal buffer *)
+(* and the escape flag are only in use inside strings, keys and numbers.  *)
+(* Every step delivers at most one event; a step that reports a value     *)
+(* delivers exactly one.                                                  *)
+(* ====================================================================== *)
+
+Ltac jpsimp := cbn [jpush jp_cur jp_states jp_lit jp_inesc jp_isdbl jp_req jp_err
+                    jset_cur jset_lit jset_inesc jset_isdbl jset_req jset_err] in *.
+
+Fixpoint wfs (c : Z) (l : list Z) : Prop :=
+  match l with
+  | [] => c = jStart
+  | d :: r => 2 <= c <= 15 /\ wfs d r
+  end.
+
+Definition W (p : jparser) : Prop :=
+  wfs (jp_cur p) (jp_states p) /\
+  (jp_inesc p = true -> jp_cur p = jString \/ jp_cur p = jDictField) /\
+  (jp_lit p <> [] -> jp_cur p = jString \/ jp_cur p = jDictField \/ jp_cur p = jNumber).
+
+Lemma wfs_nonempty : forall c l, wfs c l -> c <> jStart -> l <> [].
+Proof. intros c [|d r] H Hc; [contradiction|discriminate]. Qed.
+
+Lemma wfs_start : forall l, wfs jStart l -> l = [].
+Proof. intros [|d r] H; [reflexivity|]. cbn [wfs] in H. ust. lia. Qed.
+
+Lemma wfs_retop : forall c c' l, wfs c l -> l <> [] -> 2 <= c' <= 15 -> wfs c' l.
+Proof. intros c c' [|d r] H Hl Hc; [congruence|]. cbn [wfs] in *. split; [exact Hc|apply H]. Qed.
+
+Lemma wfs_range : forall c l, wfs c l -> 1 <= c <= 15.
+Proof. intros c [|d r] H; cbn [wfs] in H; ust; lia. Qed.
+
+Lemma W0 : W jparser0.
+Proof. unfold W, jparser0; jsimp. split; [reflexivity|]. split; [discriminate|congruence]. Qed.
+
+(* the outcome of a step: the events it delivered, the invariant, and what the
+   "reported" flag means; st0 is the state stack the step (or its leaf) started from *)
+Definition Cres (st0 : list Z) (s : sink) (r : jsres) : Prop :=
+  match r with
+  | JCrash _ => True
+  | JS p1 s1 rest rep e =>
+      exists l, s1 = s_add s l /\ (length l <= 1)%nat /\
+      (e = jpnil -> W p1 /\ (rep = true -> l <> [] /\ jp_states p1 = tl st0) /\
+                    (rep = false -> l <> [] -> jp_states p1 <> []))
+  end.
+
+Lemma jvis_add : forall s ev, exists e, jvis s ev = (s_add s [ev], e).
+Proof. intros s ev. unfold jvis. rewrite emit_spec. eexists. reflexivity. Qed.
+
+Lemma Cres_err : forall st0 s p1 rest rep e, e <> jpnil -> Cres st0 s (JS p1 s rest rep e).
+Proof.
+  intros. cbn [Cres]. exists []. rewrite s_add_nil. split; [reflexivity|]. split; [cbn; lia|]. intros; contradiction.
+Qed.
+
+Lemma Cres_silent : forall st0 s p1 rest, W p1 -> Cres st0 s (JS p1 s rest false jpnil).
+Proof.
+  intros. cbn [Cres]. exists []. rewrite s_add_nil. split; [reflexivity|]. split; [cbn; lia|]. intros _.
+  split; [assumption|]. split; [discriminate|]. intros _ Hl. contradiction.
+Qed.
+
+Lemma jpop_W : forall p, W p -> jp_states p <> [] -> jp_inesc p = false -> jp_lit p = [] ->
+  W (jpop p) /\ jp_states (jpop p) = tl (jp_states p).
+Proof.
+  intros p (Hw & _ & _) Hs Hi Hl. unfold jpop. destruct (jp_states p) as [|d r] eqn:E; [congruence|].
+  cbn [wfs] in Hw. unfold W; jsimp. split; [|reflexivity].
+  split; [apply Hw|]. split; [congruence|]. intros H. congruence.
+Qed.
+
+(* one event, value reported, parser popped *)
+Lemma Cres_report : forall s ev q rest,
+  W q -> jp_states q <> [] -> jp_inesc q = false -> jp_lit q = [] ->
+  Cres (jp_states q) s (let '(s1, e) := jvis s ev in JS (jpop q) s1 rest true e).
+Proof.
+  intros s ev q rest Hw Hs Hi Hl. destruct (jvis_add s ev) as [e ->]. cbn [Cres].
+  exists [ev]. split; [reflexivity|]. split; [cbn; lia|]. intros _.
+  destruct (jpop_W q Hw Hs Hi Hl) as [H1 H2].
+  split; [exact H1|]. split; [intros _; split; [discriminate|exact H2]|discriminate].
+Qed.
+
+(* one event, nothing reported, the stack is not empty *)
+Lemma Cres_event : forall st0 s ev q rest,
+  W q -> jp_states q <> [] ->
+  Cres st0 s (let '(s1, e) := jvis s ev in JS q s1 rest false e).
+Proof.
+  intros st0 s ev q rest Hw Hs. destruct (jvis_add s ev) as [e ->]. cbn [Cres].
+  exists [ev]. split; [reflexivity|]. split; [cbn; lia|]. intros _.
+  split; [exact Hw|]. split; [discriminate|]. intros _ _. exact Hs.
+Qed.
+
+Lemma scan_quote_found : forall buf e i j e', scan_quote buf e i = (Some j, e') -> e' = false.
+Proof.
+  induction buf as [|c r IH]; intros e i j e'; cbn [scan_quote]; [discriminate|].
+  destruct e; [apply IH|]. destruct (c =? 34); [intros [= _ <-]; reflexivity|].
+  destruct (c =? 92); apply IH.
+Qed.
+
+Lemma do_string_W : forall p b,
+  match do_string p b with
+  | DSMore p1 => jp_cur p1 = jp_cur p /\ jp_states p1 = jp_states p
+  | DSDone p1 _ _ => jp_cur p1 = jp_cur p /\ jp_states p1 = jp_states p /\ jp_lit p1 = [] /\ jp_inesc p1 = false
+  | _ => True
+  end.
+Proof.
+  intros p b. unfold do_string.
+  destruct (if zlen (jp_lit p) =? 0 then _ else _) as [buf|]; [|exact I].
+  destruct (scan_quote buf (jp_inesc p) 0) as [found inesc] eqn:Es.
+  destruct found as [i|]; jsimp.
+  - apply scan_quote_found in Es. subst inesc.
+    destruct (zlen _ <? 2); [exact I|]. destruct (unquote _); jsimp; auto.
+  - jsimp. auto.
+Qed.
+
+Lemma W_same_ctl : forall p p1,
+  jp_cur p1 = jp_cur p -> jp_states p1 = jp_states p -> W p ->
+  jp_cur p = jString \/ jp_cur p = jDictField \/ (jp_inesc p1 = false /\ jp_lit p1 = []) -> W p1.
+Proof.
+  intros p p1 Hc Hs (Hw & Hi & Hl) H. unfold W. rewrite Hc, Hs. split; [exact Hw|].
+  destruct H as [H|[H|[H1 H2]]].
+  - split; intros _; auto.
+  - split; intros _; auto.
+  - split; intros K; congruence.
+Qed.
+
+Lemma step_string_C : forall p s b,
+  W p -> jp_cur p = jString -> jp_states p <> [] ->
+  Cres (jp_states p) s (step_string p s b).
+Proof.
+  intros p s b Hw Hc Hs. unfold step_string. pose proof (do_string_W p b) as D.
+  destruct (do_string p b) as [p1|p1 content rest|p1|w]; [| | |exact I].
+  - destruct D as [D1 D2]. apply Cres_silent. eapply W_same_ctl; eauto.
+  - destruct D as (D1 & D2 & D3 & D4). rewrite <- D2. apply Cres_report; try congruence.
+    eapply W_same_ctl; eauto.
+  - apply Cres_err. ust; lia.
+Qed.
+
+Lemma step_dict_key_C : forall p s b,
+  W p -> jp_cur p = jDictField -> jp_states p <> [] ->
+  Cres (jp_states p) s (step_dict_key p s b).
+Proof.
+  intros p s b Hw Hc Hs. unfold step_dict_key. pose proof (do_string_W p b) as D.
+  destruct (do_string p b) as [p1|p1 content rest|p1|w]; [| | |exact I].
+  - destruct D as [D1 D2]. apply Cres_silent. eapply W_same_ctl; eauto.
+  - destruct D as (D1 & D2 & D3 & D4). apply Cres_event; [|jsimp; congruence].
+    destruct Hw as (Hw & _ & _). unfold W; jsimp. rewrite D2, D3, D4.
+    split; [eapply wfs_retop; eauto; ust; lia|]. split; congruence.
+  - apply Cres_err. ust; lia.
+Qed.
+
+Lemma report_number_add : forall s b dbl s1 e, report_number pf s b dbl = Some (s1, e) ->
+  exists l, s1 = s_add s l /\ (length l <= 1)%nat /\ (e = jpnil -> l <> []).
+Proof.
+  intros s b dbl s1 e. unfold report_number.
+  assert (G : forall ev, (let '(s2, e2) := jvis s ev in Some (s2, e2)) = Some (s1, e) ->
+              exists l, s1 = s_add s l /\ (length l <= 1)%nat /\ (e = jpnil -> l <> [])).
+  { intros ev. destruct (jvis_add s ev) as [e2 ->]. intros [= <- <-].
+    exists [ev]. split; [reflexivity|]. split; [cbn; lia|discriminate]. }
+  assert (G0 : Some (s, jeGeneric) = Some (s1, e) ->
+              exists l, s1 = s_add s l /\ (length l <= 1)%nat /\ (e = jpnil -> l <> [])).
+  { intros [= <- <-]. exists []. rewrite s_add_nil. split; [reflexivity|]. split; [cbn; lia|]. ust; lia. }
+  destruct dbl.
+  - destruct (pf b); [apply G|apply G0].
+  - destruct b as [|c r]; [discriminate|].
+    destruct (parse_uint _ _); [|apply G0].
+    destruct (_ && _); [apply G|]. destruct (_ && _); [apply G0|apply G].
+Qed.
+
+Lemma step_number_C : forall p s b,
+  W p -> jp_cur p = jNumber -> jp_states p <> [] ->
+  Cres (jp_states p) s (step_number pf p s b).
+Proof.
+  intros p s b Hw Hc Hs. unfold step_number.
+  destruct (scan_number b (jp_isdbl p) 0) as [found dbl].
+  assert (Hi : jp_inesc p = false).
+  { destruct Hw as (_ & Hi & _). destruct (jp_inesc p); [|reflexivity].
+    destruct (Hi eq_refl) as [K|K]; rewrite Hc in K; discriminate K. }
+  destruct found as [i|]; jsimp.
+  - destruct (report_number pf s _ dbl) as [[s1 e]|] eqn:Er; [|exact I].
+    destruct (report_number_add _ _ _ _ _ Er) as (l & -> & Hl1 & Hl2). cbn [Cres].
+    exists l. split; [reflexivity|]. split; [exact Hl1|]. intros He.
+    destruct (jpop_W (jset_lit (jset_isdbl p dbl) [])) as [H1 H2]; jsimp; auto.
+    { destruct Hw as (Hw & _ & _). unfold W; jsimp. split; [exact Hw|]. split; congruence. }
+    split; [exact H1|]. split; [intros _; split; [auto|exact H2]|discriminate].
+  - apply Cres_silent. destruct Hw as (Hw & _ & _). unfold W; jsimp.
+    split; [exact Hw|]. split; [congruence|auto].
+Qed.
+
+Lemma step_kind_C : forall p s b kind ev,
+  W p -> jp_states p <> [] -> jp_inesc p = false -> jp_lit p = [] ->
+  Cres (jp_states p) s (step_kind p s b kind ev).
+Proof.
+  intros p s b kind ev Hw Hs Hi Hl. unfold step_kind.
+  destruct (_ || _); [exact I|]. cbv zeta.
+  destruct (negb (zlen b <? jp_req p)) eqn:Ed.
+  - destruct (negb (has_prefix _ _)); [apply Cres_err; ust; lia|].
+    apply Cres_report; assumption.
+  - destruct (negb (has_prefix _ _)); [apply Cres_err; ust; lia|].
+    apply Cres_silent. destruct Hw as (Hw & Hw2 & Hw3). unfold W; jsimp. auto.
+Qed.
+
+Lemma end_container_C : forall p s b ev,
+  W p -> jp_states p <> [] -> jp_inesc p = false -> jp_lit p = [] ->
+  Cres (jp_states p) s (end_container p s b ev).
+Proof.
+  intros p s b ev Hw Hs Hi Hl. unfold end_container. destruct b as [|c r]; [exact I|].
+  apply Cres_report; assumption.
+Qed.
+
+(* W-facts in states that are not string / key / number states *)
+Lemma W_plain : forall p, W p ->
+  jp_cur p <> jString -> jp_cur p <> jDictField -> jp_cur p <> jNumber ->
+  jp_inesc p = false /\ jp_lit p = [].
+Proof.
+  intros p (_ & Hi & Hl) H1 H2 H3. split.
+  - destruct (jp_inesc p); [|reflexivity]. destruct (Hi eq_refl); contradiction.
+  - destruct (jp_lit p) as [|x l]; [reflexivity|].
+    destruct Hl as [K|[K|K]]; [discriminate|contradiction..].
+Qed.
+
+Lemma W_set_cur : forall p c, W p -> jp_states p <> [] -> 2 <= c <= 15 ->
+  jp_inesc p = false -> jp_lit p = [] -> W (jset_cur p c).
+Proof.
+  intros p c (Hw & _ & _) Hs Hc Hi Hl. unfold W; jsimp.
+  split; [eapply wfs_retop; eauto|]. split; congruence.
+Qed.
+
+Lemma step_value_C : forall p s b ret,
+  W p -> wfs ret (jp_states p) -> jp_inesc p = false -> jp_lit p = [] ->
+  Cres (ret :: jp_states p) s (step_value pf p s b ret).
+Proof.
+  intros p s b ret Hw Hret Hi Hl. unfold step_value.
+  destruct (trim_left b) as [|c r]; [apply Cres_silent; exact Hw|]. cbv zeta.
+  assert (Hne : (ret =? jFailed) = false) by (apply wfs_range in Hret; ust; lia).
+  (* the parser after pushing the state [nx] *)
+  assert (Hpush : forall nx (q : jparser), 2 <= nx <= 15 ->
+            jp_cur q = nx -> jp_states q = ret :: jp_states p ->
+            (jp_inesc q = false) -> (jp_lit q = []) -> W q /\ jp_states q <> []).
+  { intros nx q Hnx Hc Hs Hqi Hql. split; [|rewrite Hs; discriminate].
+    unfold W. rewrite Hc, Hs, Hqi, Hql. cbn [wfs]. split; [auto|]. split; congruence. }
+  destruct (c =? 123).
+  { apply Cres_event; apply (Hpush jDict); jpsimp; rewrite ?Hne; auto; ust; lia. }
+  destruct (c =? 91).
+  { apply Cres_event; apply (Hpush jArr); jpsimp; rewrite ?Hne; auto; ust; lia. }
+  destruct (c =? 110).
+  { match goal with |- Cres _ _ (step_kind ?q _ _ _ _) =>
+      destruct (Hpush jNull q) as [H1 H2]; jpsimp; rewrite ?Hne; auto; [ust; lia|];
+      replace (ret :: jp_states p) with (jp_states q) by (jpsimp; rewrite Hne; reflexivity);
+      apply step_kind_C; auto end. }
+  destruct (c =? 102).
+  { match goal with |- Cres _ _ (step_kind ?q _ _ _ _) =>
+      destruct (Hpush jFalse q) as [H1 H2]; jpsimp; rewrite ?Hne; auto; [ust; lia|];
+      replace (ret :: jp_states p) with (jp_states q) by (jpsimp; rewrite Hne; reflexivity);
+      apply step_kind_C; auto end. }
+  destruct (c =? 116).
+  { match goal with |- Cres _ _ (step_kind ?q _ _ _ _) =>
+      destruct (Hpush jTrue q) as [H1 H2]; jpsimp; rewrite ?Hne; auto; [ust; lia|];
+      replace (ret :: jp_states p) with (jp_states q) by (jpsimp; rewrite Hne; reflexivity);
+      apply step_kind_C; auto end. }
+  destruct (c =? 34).
+  { match goal with |- Cres _ _ (step_string ?q _ _) =>
+      destruct (Hpush jString q) as [H1 H2]; jpsimp; rewrite ?Hne; auto; [ust; lia|];
+      replace (ret :: jp_states p) with (jp_states q) by (jpsimp; rewrite Hne; reflexivity);
+      apply step_string_C; auto end. }
+  destruct (_ || _).
+  { match goal with |- Cres _ _ (step_number pf ?q _ _) =>
+      destruct (Hpush jNumber q) as [H1 H2]; jpsimp; rewrite ?Hne; auto; [ust; lia|];
+      replace (ret :: jp_states p) with (jp_states q) by (jpsimp; rewrite Hne; reflexivity);
+      apply step_number_C; auto end. }
+  apply Cres_err. ust; lia.
+Qed.
+
+Lemma Cres_st0 : forall st0 st1 s r,
+  (match r with JS _ _ _ rep e => e = jpnil -> rep = true -> tl st0 = tl st1 | _ => True end) ->
+  Cres st0 s r -> Cres st1 s r.
+Proof.
+  intros st0 st1 s [p1 s1 rest rep e|w] H; cbn [Cres]; [|auto].
+  intros (l & Hl1 & Hl2 & Hl3). exists l. split; [exact Hl1|]. split; [exact Hl2|].
+  intros He. destruct (Hl3 He) as (A & B & C). split; [exact A|]. split; [|exact C].
+  intros Hr. destruct (B Hr) as [B1 B2]. split; [exact B1|]. rewrite B2. apply H; assumption.
+Qed.
+
+(* one step: at most one event; the invariant; the meaning of "reported" *)
+Lemma jstep_C : forall p s b, W p ->
+  match jstep pf p s b with
+  | JCrash _ => True
+  | JS p1 s1 rest rep e =>
+      exists l, s1 = s_add s l /\ (length l <= 1)%nat /\
+      (e = jpnil -> W p1 /\ (rep = true -> l <> []) /\
+                    (rep = false -> l <> [] -> jp_states p1 <> []))
+  end.
+Proof.
+  intros p s b Hw.
+  assert (G : forall st0, Cres st0 s (jstep pf p s b) ->
+    match jstep pf p s b with
+    | JCrash _ => True
+    | JS p1 s1 rest rep e =>
+        exists l, s1 = s_add s l /\ (length l <= 1)%nat /\
+        (e = jpnil -> W p1 /\ (rep = true -> l <> []) /\ (rep = false -> l <> [] -> jp_states p1 <> []))
+    end).
+  { intros st0 H. destruct (jstep pf p s b) as [p1 s1 rest rep e|w]; [|exact I].
+    destruct H as (l & H1 & H2 & H3). exists l. split; [exact H1|]. split; [exact H2|].
+    intros He. destruct (H3 He) as (A & B & C). split; [exact A|]. split; [|exact C].
+    intros Hr. apply B. exact Hr. }
+  pose proof Hw as (Hwf & _ & _). pose proof (wfs_range _ _ Hwf) as Hrg.
+  destruct (cur_cases (jp_cur p)) as
+    [Hc|[Hc|[Hc|[Hc|[Hc|[Hc|[Hc|[Hc|[Hc|[Hc|[Hc|[Hc|[Hc|[Hc|[Hc|[Hc|Hc]]]]]]]]]]]]]]]];
+    try (exfalso; ust; lia).
+  - (* jStart *)
+    assert (Hs : jp_states p = []) by (apply wfs_start; rewrite <- Hc; exact Hwf).
+    destruct (W_plain p Hw) as [Hi Hl]; try (rewrite Hc; discriminate).
+    apply (G (jStart :: jp_states p)). rewrite (jstep_start pf p s b Hc).
+    apply step_value_C; auto. rewrite Hs. reflexivity.
+  - (* jArr *)
+    assert (Hs : jp_states p <> []) by (apply (wfs_nonempty _ _ Hwf); rewrite Hc; discriminate).
+    destruct (W_plain p Hw) as [Hi Hl]; try (rewrite Hc; discriminate).
+    apply (G (jp_states p)). rewrite (jstep_arr pf p s b Hc). unfold step_array.
+    destruct (trim_left b) as [|c r]; [apply Cres_silent; exact Hw|].
+    destruct (c =? 93); [apply end_container_C; auto|].
+    apply Cres_silent. apply W_set_cur; auto. ust; lia.
+  - (* jArrValue *)
+    assert (Hs : jp_states p <> []) by (apply (wfs_nonempty _ _ Hwf); rewrite Hc; discriminate).
+    destruct (W_plain p Hw) as [Hi Hl]; try (rewrite Hc; discriminate).
+    rewrite (jstep_arrvalue pf p s b Hc).
+    pose proof (step_value_C p s b jArrNext Hw) as H.
+    destruct (step_value pf p s b jArrNext) as [p1 s1 rest rep e|w]; [|exact I].
+    destruct H as (l & H1 & H2 & H3); auto.
+    { eapply wfs_retop; eauto. ust; lia. }
+    exists l. split; [exact H1|]. split; [exact H2|]. intros He.
+    destruct (H3 He) as (A & B & C). split; [exact A|]. split; [discriminate|].
+    intros _ Hl0. destruct rep; [|apply C; auto].
+    destruct (B eq_refl) as [_ B2]. rewrite B2. exact Hs.
+  - (* jArrNext *)
+    assert (Hs : jp_states p <> []) by (apply (wfs_nonempty _ _ Hwf); rewrite Hc; discriminate).
+    destruct (W_plain p Hw) as [Hi Hl]; try (rewrite Hc; discriminate).
+    apply (G (jp_states p)). rewrite (jstep_arrnext pf p s b Hc). unfold step_arr_value_end.
+    destruct (trim_left b) as [|c r]; [apply Cres_silent; exact Hw|].
+    destruct (c =? 93); [apply end_container_C; auto|].
+    destruct (c =? 44); [|apply Cres_err; ust; lia].
+    apply Cres_silent. apply W_set_cur; auto. ust; lia.
+  - (* jDict *)
+    assert (Hs : jp_states p <> []) by (apply (wfs_nonempty _ _ Hwf); rewrite Hc; discriminate).
+    destruct (W_plain p Hw) as [Hi Hl]; try (rewrite Hc; discriminate).
+    apply (G (jp_states p)). rewrite (jstep_dict pf p s b Hc). unfold step_dict.
+    destruct (trim_left b) as [|c r]; [apply Cres_silent; exact Hw|].
+    destruct (c =? 125); [cbn [negb]; apply end_container_C; auto|].
+    destruct (c =? 34); [|apply Cres_err; ust; lia].
+    apply Cres_silent. apply W_set_cur; auto. ust; lia.
+  - (* jDictField *)
+    assert (Hs : jp_states p <> []) by (apply (wfs_nonempty _ _ Hwf); rewrite Hc; discriminate).
+    apply (G (jp_states p)). rewrite (jstep_dictfield pf p s b Hc). apply step_dict_key_C; auto.
+  - (* jDictNextField *)
+    assert (Hs : jp_states p <> []) by (apply (wfs_nonempty _ _ Hwf); rewrite Hc; discriminate).
+    destruct (W_plain p Hw) as [Hi Hl]; try (rewrite Hc; discriminate).
+    apply (G (jp_states p)). rewrite (jstep_dictnext pf p s b Hc). unfold step_dict.
+    destruct (trim_left b) as [|c r]; [apply Cres_silent; exact Hw|].
+    destruct (c =? 125); [cbn [negb]; apply Cres_err; ust; lia|].
+    destruct (c =? 34); [|apply Cres_err; ust; lia].
+    apply Cres_silent. apply W_set_cur; auto. ust; lia.
+  - (* jDictFieldValue *)
+    assert (Hs : jp_states p <> []) by (apply (wfs_nonempty _ _ Hwf); rewrite Hc; discriminate).
+    destruct (W_plain p Hw) as [Hi Hl]; try (rewrite Hc; discriminate).
+    apply (G (jDictFieldStateEnd :: jp_states p)). rewrite (jstep_dictvalue pf p s b Hc).
+    apply step_value_C; auto. eapply wfs_retop; eauto. ust; lia.
+  - (* jDictFieldValueSep *)
+    assert (Hs : jp_states p <> []) by (apply (wfs_nonempty _ _ Hwf); rewrite Hc; discriminate).
+    destruct (W_plain p Hw) as [Hi Hl]; try (rewrite Hc; discriminate).
+    apply (G (jp_states p)). rewrite (jstep_sep pf p s b Hc).
+    destruct (trim_left b) as [|x r]; [apply Cres_silent; exact Hw|].
+    destruct (x =? 58); [|apply Cres_err; ust; lia].
+    apply Cres_silent. apply W_set_cur; auto. ust; lia.
+  - (* jDictFieldStateEnd *)
+    assert (Hs : jp_states p <> []) by (apply (wfs_nonempty _ _ Hwf); rewrite Hc; discriminate).
+    destruct (W_plain p Hw) as [Hi Hl]; try (rewrite Hc; discriminate).
+    apply (G (jp_states p)). rewrite (jstep_dictend pf p s b Hc). unfold step_dict_value_end.
+    destruct (trim_left b) as [|c r]; [apply Cres_silent; exact Hw|].
+    destruct (c =? 125); [apply end_container_C; auto|].
+    destruct (c =? 44); [|apply Cres_err; ust; lia].
+    apply Cres_silent. apply W_set_cur; auto. ust; lia.
+  - (* jNull *)
+    assert (Hs : jp_states p <> []) by (apply (wfs_nonempty _ _ Hwf); rewrite Hc; discriminate).
+    destruct (W_plain p Hw) as [Hi Hl]; try (rewrite Hc; discriminate).
+    apply (G (jp_states p)). rewrite (jstep_null pf p s b Hc). apply step_kind_C; auto.
+  - (* jTrue *)
+    assert (Hs : jp_states p <> []) by (apply (wfs_nonempty _ _ Hwf); rewrite Hc; discriminate).
+    destruct (W_plain p Hw) as [Hi Hl]; try (rewrite Hc; discriminate).
+    apply (G (jp_states p)). rewrite (jstep_true pf p s b Hc). apply step_kind_C; auto.
+  - (* jFalse *)
+    assert (Hs : jp_states p <> []) by (apply (wfs_nonempty _ _ Hwf); rewrite Hc; discriminate).
+    destruct (W_plain p Hw) as [Hi Hl]; try (rewrite Hc; discriminate).
+    apply (G (jp_states p)). rewrite (jstep_false pf p s b Hc). apply step_kind_C; auto.
+  - (* jString *)
+    assert (Hs : jp_states p <> []) by (apply (wfs_nonempty _ _ Hwf); rewrite Hc; discriminate).
+    apply (G (jp_states p)). rewrite (jstep_string pf p s b Hc). apply step_string_C; auto.
+  - (* jNumber *)
+    assert (Hs : jp_states p <> []) by (apply (wfs_nonempty _ _ Hwf); rewrite Hc; discriminate).
+    apply (G (jp_states p)). rewrite (jstep_number pf p s b Hc). apply step_number_C; auto.
+Qed.
+
+Lemma jstep_W : forall p s b p1 s1 rest rep, W p -> jstep pf p s b = JS p1 s1 rest rep jpnil -> W p1.
+Proof.
+  intros p s b p1 s1 rest rep Hw H. pose proof (jstep_C p s b Hw) as C. rewrite H in C.
+  destruct C as (l & _ & _ & C). apply C. reflexivity.
+Qed.
+
+Lemma W_notfailed : forall p, W p -> (jp_cur p =? jFailed) = false.
+Proof. intros p (Hw & _). apply wfs_range in Hw. ust. lia. Qed.
+
+Lemma jfeed_until_W : forall fuel p s b orig p' s' r d e,
+  W p -> jfeed_until fuel pf p s b orig = Ok (JS p' s' r d e) -> e = jpnil -> W p'.
+Proof.
+  induction fuel as [|f IH]; intros p s b orig p' s' r d e Hw H He; [discriminate|].
+  cbn [jfeed_until] in H.
+  destruct (zlen b =? 0); [inversion H; subst; exact Hw|].
+  destruct (jstep pf p s b) as [p1 s1 rest rep err|w] eqn:Hx; [|discriminate].
+  rewrite (W_notfailed p Hw) in H.
+  destruct (jisnil err) eqn:Ee; cbn [negb] in H.
+  - apply jisnil_true' in Ee. subst err. pose proof (jstep_W _ _ _ _ _ _ _ Hw Hx) as Hw1.
+    destruct (rep && (zlen (jp_states p1) =? 0)).
+    + inversion H; subst. exact Hw1.
+    + eapply IH; eauto.
+  - inversion H; subst. vm_compute in Ee. discriminate Ee.
+Qed.
+
+Lemma jfeed_W : forall fuel p s b p' s' e,
+  W p -> jfeed fuel pf p s b = Ok (p', s', e) -> e = jpnil -> W p'.
+Proof.
+  induction fuel as [|f IH]; intros p s b p' s' e Hw H He; [discriminate|].
+  cbn [jfeed] in H. destruct (zlen b >? 0); [|inversion H; subst; exact Hw].
+  destruct (jfeed_until (jfeed_fuel b) pf p s b b) as [[p1 s1 rest d err|w]| | |] eqn:Hf; try discriminate.
+  destruct (jisnil err) eqn:Ee.
+  - apply jisnil_true' in Ee. subst err.
+    pose proof (jfeed_until_W _ _ _ _ _ _ _ _ _ _ Hw Hf eq_refl) as Hw1. eapply IH; eauto.
+  - inversion H; subst. vm_compute in Ee. discriminate Ee.
+Qed.
+
+Lemma W_set_err : forall p e, W p -> W (jset_err p e).
+Proof. intros p e H. exact H. Qed.
+
+Lemma jp_write_W : forall p s b p' s' e,
+  W p -> jp_write pf p s b = Ok (p', s', e) -> e = jpnil -> W p'.
+Proof.
+  intros p s b p' s' e Hw H He. unfold jp_write in H.
+  destruct (jfeed (2 * length b + 2) pf p s b) as [[[p1 s1] err]| | |] eqn:Hf; try discriminate.
+  inversion H; subst. apply W_set_err. eapply jfeed_W; eauto.
+Qed.
+
+(* what the parser looks like between two top-level values *)
+Definition idle (p : jparser) : Prop :=
+  jp_cur p = jStart /\ jp_states p = [] /\ jp_inesc p = false.
+
+Lemma idle_W : forall p, idle p -> jp_lit p = [] -> W p.
+Proof.
+  intros p (H1 & H2 & H3) H4. unfold W. rewrite H1, H2, H3, H4.
+  split; [reflexivity|]. split; [discriminate|congruence].
+Qed.
+
+(* finalize accepts only at the top level; a pending top-level number is reported and
+   popped, but its literal stays in the buffer *)
+Lemma jfinalize_idle : forall p s p' s',
+  W p -> jfinalize pf p s = Some (p', s', jpnil) ->
+  idle p' /\
+  ((jp_cur p <> jNumber /\ p' = p /\ jp_lit p' = []) \/
+   (jp_cur p = jNumber /\ p' = jpop p /\ jp_lit p' = jp_lit p)).
+Proof.
+  intros p s p' s' Hw H. unfold jfinalize in H.
+  pose proof Hw as (Hwf & Hi & Hl).
+  assert (Gi : forall q, wfs (jp_cur q) (jp_states q) -> jp_inesc q = false ->
+            (zlen (jp_states q) >? 0) && negb (jp_cur q =? jStart) = false -> idle q).
+  { intros q Hq Hqi Hz. unfold idle. destruct (jp_states q) as [|d r] eqn:Es.
+    - cbn [wfs] in Hq. auto.
+    - cbn [wfs] in Hq. exfalso. unfold zlen in Hz. cbn [length] in Hz. ust. lia. }
+  destruct (jp_cur p =? jNumber) eqn:Ec.
+  - apply Z.eqb_eq in Ec.
+    assert (Hs : jp_states p <> []) by (apply (wfs_nonempty _ _ Hwf); rewrite Ec; discriminate).
+    assert (Hie : jp_inesc p = false).
+    { destruct (jp_inesc p); [|reflexivity]. destruct (Hi eq_refl) as [K|K]; rewrite Ec in K; discriminate K. }
+    destruct (report_number pf s (jp_lit p) (jp_isdbl p)) as [[s1 e]|]; [|discriminate].
+    destruct (jisnil e) eqn:Ee; cbn [negb] in H.
+    + destruct ((zlen (jp_states (jpop p)) >? 0) && negb (jp_cur (jpop p) =? jStart)) eqn:Ez;
+        [inversion H; ust; lia|].
+      inversion H; subst p' s'. clear H.
+      assert (Hpop : wfs (jp_cur (jpop p)) (jp_states (jpop p)) /\ jp_inesc (jpop p) = false /\
+                     jp_lit (jpop p) = jp_lit p).
+      { unfold jpop. destruct (jp_states p) as [|d r]; [congruence|]. cbn [wfs] in Hwf. jsimp. tauto. }
+      destruct Hpop as (A & B & C).
+      split; [apply Gi; assumption|]. right. auto.
+    + inversion H; subst. vm_compute in Ee. discriminate Ee.
+  - cbn [negb] in H.
+    destruct ((zlen (jp_states p) >? 0) && negb (jp_cur p =? jStart)) eqn:Ez; [inversion H; ust; lia|].
+    inversion H; subst p' s'. clear H. apply Z.eqb_neq in Ec.
+    assert (Hidle : idle p).
+    { unfold idle. destruct (jp_states p) as [|d r] eqn:Es.
+      - cbn [wfs] in Hwf. split; [exact Hwf|]. split; [reflexivity|].
+        destruct (jp_inesc p); [|reflexivity]. destruct (Hi eq_refl) as [K|K]; rewrite Hwf in K; discriminate K.
+      - cbn [wfs] in Hwf. exfalso. unfold zlen in Ez. cbn [length] in Ez. ust. lia. }
+    split; [exact Hidle|]. left. split; [exact Ec|]. split; [reflexivity|].
+    destruct Hidle as (K1 & _). destruct (jp_lit p) as [|x l]; [reflexivity|].
+    destruct Hl as [K|[K|K]]; try discriminate; rewrite K1 in K; discriminate K.
+Qed.
+
+Definition jreset (p : jparser) : jparser :=
+  jset_cur (jset_lit {| jp_cur := jp_cur p; jp_states := []; jp_lit := jp_lit p; jp_inesc := jp_inesc p;
+                        jp_isdbl := jp_isdbl p; jp_req := jp_req p; jp_err := jp_err p |} []) jStart.
+
+Lemma jp_parse_reset : forall p s b,
+  jp_parse pf p s b =
+  match jfeed (2 * length b + 2) pf (jreset p) s b with
+  | Ok (p1, s1, err) => if jisnil err then with_final pf p1 s1 else Ok (p1, s1, err)
+  | r => r
+  end.
+Proof. reflexivity. Qed.
+
+Lemma jreset_W : forall p, jp_inesc p = false -> W (jreset p).
+Proof.
+  intros p H. apply idle_W; [|reflexivity]. unfold idle, jreset; jsimp. auto.
+Qed.
+
+Lemma with_final_inv : forall p s r, with_final pf p s = Ok r -> jfinalize pf p s = Some r.
+Proof. intros p s r. unfold with_final. destruct (jfinalize pf p s); [intros [= ->]; reflexivity|discriminate]. Qed.
+
+(* C17, Parse: any parser whose escape flag is clear (e.g. a fresh one, or one that
+   accepted its last input) is idle again after an accepted Parse *)
+Theorem C17_json_parse_idle : forall p s b p' s',
+  jp_inesc p = false -> jp_parse pf p s b = Ok (p', s', jpnil) ->
+  jp_cur p' = jStart /\ jp_states p' = [] /\ jp_inesc p' = false /\
+  (jp_lit p' = [] \/
+   exists p1 s1, jfeed (2 * length b + 2) pf (jreset p) s b = Ok (p1, s1, jpnil) /\
+                 jp_cur p1 = jNumber /\ p' = jpop p1 /\ jp_lit p' = jp_lit p1).
+Proof.
+  intros p s b p' s' Hi H. rewrite jp_parse_reset in H.
+  destruct (jfeed (2 * length b + 2) pf (jreset p) s b) as [[[p1 s1] err]| | |] eqn:Hf; try discriminate.
+  destruct (jisnil err) eqn:Ee.
+  - apply jisnil_true' in Ee. subst err. apply with_final_inv in H.
+    pose proof (jfeed_W _ _ _ _ _ _ _ (jreset_W p Hi) Hf eq_refl) as Hw1.
+    destruct (jfinalize_idle _ _ _ _ Hw1 H) as ((A & B & C) & D).
+    split; [exact A|]. split; [exact B|]. split; [exact C|].
+    destruct D as [(_ & _ & D)|(D1 & D2 & D3)]; [left; exact D|right].
+    exists p1, s1. auto.
+  - inversion H; subst. vm_compute in Ee. discriminate Ee.
+Qed.
+
+(* C17, Write ... Write, finalize *)
+Theorem C17_json_writes_idle : forall chunks p s p' s',
+  W p -> jp_writes pf p s chunks = Ok (p', s', jpnil) ->
+  jp_cur p' = jStart /\ jp_states p' = [] /\ jp_inesc p' = false.
+Proof.
+  induction chunks as [|c r IH]; intros p s p' s' Hw H; cbn [jp_writes] in H.
+  - apply with_final_inv in H. destruct (jfinalize_idle _ _ _ _ Hw H) as ((A & B & C) & _). auto.
+  - destruct (jp_write pf p s c) as [[[p1 s1] err]| | |] eqn:Hwr; try discriminate.
+    destruct (jisnil err) eqn:Ee.
+    + apply jisnil_true' in Ee. subst err. eapply IH; [|exact H]. eapply jp_write_W; eauto.
+    + inversion H; subst. vm_compute in Ee. discriminate Ee.
+Qed.
+
+Theorem C17_json_run_parse_reset : forall vfail b evs p,
+  jrun_parse pf vfail b = Ok (evs, jpnil, p) ->
+  jp_cur p = jStart /\ jp_states p = [] /\ jp_inesc p = false.
+Proof.
+  intros vfail b evs p H. unfold jrun_parse in H.
+  destruct (jp_parse pf jparser0 (sink0 vfail) b) as [[[p' s'] e']| | |] eqn:E; try discriminate.
+  inversion H; subst. destruct (C17_json_parse_idle jparser0 _ _ _ _ eq_refl E) as (A & B & C & _). auto.
+Qed.
+
+Theorem C17_json_run_chunks_reset : forall vfail chunks evs p,
+  jrun_chunks pf vfail chunks = Ok (evs, jpnil, p) ->
+  jp_cur p = jStart /\ jp_states p = [] /\ jp_inesc p = false.
+Proof.
+  intros vfail chunks evs p H. unfold jrun_chunks in H.
+  destruct (jp_writes pf jparser0 (sink0 vfail) chunks) as [[[p' s'] e']| | |] eqn:E; try discriminate.
+  inversion H; subst. exact (C17_json_writes_idle _ _ _ _ _ W0 E).
+Qed.
+
 End JsonVisitor.
 
 Print Assumptions C16_json_parse_prompt.
@@ -564,3 +1138,7 @@ Print Assumptions C16_json_run_parse_prompt.
 Print Assumptions C16_json_run_parse_fail_spec.
 Print Assumptions C16_json_run_parse_prefix.
 Print Assumptions C16_json_parse_total_prefix.
+Print Assumptions C17_json_parse_idle.
+Print Assumptions C17_json_writes_idle.
+Print Assumptions C17_json_run_parse_reset.
+Print Assumptions C17_json_run_chunks_reset.
